@@ -14,5 +14,6 @@ func moreGens() []struct {
 		{"EdiConsts.v", genEdiConsts}, // C07
 		{"Safety.v", genSafety},       // C03
 		{"DeclHash.v", genDeclHash},   // C13, C15
+		{"EvalShape.v", genEvalShape}, // C02, C13
 	}
 }
